@@ -106,9 +106,21 @@ def make_cases(rng, tier):
     cases, refusals, problems = [], 0, []
     fixed_left = list(sp.fixed_window_cases())
     n += len(fixed_left) * 4 // 3
+    # an unsliced sort buried under a join with the engine's join identity (either side, with and without a predicate,
+    # also under a further join): the other operand is handed back inside a fresh SELECT, so the sort would be lost
+    a_, b_ = enc.K(1), enc.K(2)
+    t_ = ("leaf", 1, ("sql", 0), [a_, b_], [{a_: 1, b_: 2}, {a_: 2, b_: 1}, {a_: 3, b_: 3}], (0, None))
+    srt_ = ("un", ("sort", [(("ref", b_), True)]), mp.DEFAULT, t_)
+    ident_ = ("leaf", 2, ("sql", 0), [], [{}], (1, 1), "identity")
+    other_ = ("leaf", 3, ("sql", 0), [a_, enc.K(3)], [{a_: 1, enc.K(3): 5}], (0, None))
+    bury_fixed = []
+    for pred in (None, ("cmp", "ge", ("ref", a_), ("lit", 2))):
+        bury_fixed += [("join", pred, True, False, srt_, ident_), ("join", pred, True, False, ident_, srt_),
+                       ("join", None, True, False, ("join", pred, True, False, srt_, ident_), other_)]
+    n += len(bury_fixed) * 4
     for i in range(n):
         if i % 4 == 3:
-            p = burying_prog(rng)
+            p = bury_fixed.pop() if bury_fixed else burying_prog(rng)
             if p is None:
                 continue
             w, rel, res = mp.run_build(p)
